@@ -165,6 +165,7 @@ static void run() {
       if (BitMaskedArray* r = dynamic_cast<BitMaskedArray*>(x.get())) stack.push_back(r->toByteMaskedArray());
       else if (UnmaskedArray* r = dynamic_cast<UnmaskedArray*>(x.get())) stack.push_back(r->toByteMaskedArray());
       else throw std::runtime_error("akrun: tobytemask on a non-masked node"); }
+    else if (c == "param") { std::string k = next(), v = next(); ContentPtr x = pop(); util::Parameters ps = x.get()->parameters(); ps[k] = v; x.get()->setparameters(ps); stack.push_back(x); }
     else if (c == "fieldat") { int64_t k = nint(); ContentPtr x = pop();
       if (RecordArray* r = dynamic_cast<RecordArray*>(x.get())) stack.push_back(r->field(k));
       else throw std::runtime_error("akrun: fieldat on a non-record node"); }
@@ -172,7 +173,8 @@ static void run() {
     else if (c == "mergemany") { int64_t k = nint(); ContentPtrVec cs((size_t)k); for (int64_t j = k - 1; j >= 0; j--) cs[(size_t)j] = pop(); ContentPtr a = pop(); stack.push_back(a.get()->mergemany(cs)); }
     else if (c == "fillna") { ContentPtr v = pop(); ContentPtr a = pop(); stack.push_back(a.get()->fillna(v)); }
     else if (c == "simplify") { ContentPtr a = pop(); stack.push_back(a.get()->shallow_simplify()); }
-    else if (c == "validity") { ContentPtr a = pop(); std::string e = a.get()->validityerror("layout"); printf("OK %s\n", e.empty() ? "\"\"" : ("\"" + e + "\"").c_str()); fflush(stdout); _Exit(0); }
+    else if (c == "validity") { ContentPtr a = pop(); std::string e = a.get()->validityerror("layout"); for (size_t i = 0; i < e.size(); i++) if (e[i] == 10 || e[i] == 13 || e[i] == 34 || e[i] == 92) e[i] = 32;
+      printf("OK %s\n", e.empty() ? "\"\"" : ("\"" + e + "\"").c_str()); fflush(stdout); _Exit(0); }
     else if (c == "depths") { ContentPtr a = pop(); std::pair<int64_t, int64_t> mm = a.get()->minmax_depth(); std::pair<bool, int64_t> bd = a.get()->branch_depth();
       printf("OK [%lld, %lld, %lld, %d, %lld, %lld]\n", (long long)a.get()->purelist_depth(), (long long)mm.first, (long long)mm.second, (int)bd.first, (long long)bd.second, (long long)a.get()->numfields());
       fflush(stdout); _Exit(0); }
